@@ -7,5 +7,5 @@ for d in seeded/*/; do
   props=$(python3 -c "import json;print(' '.join(json.load(open('$d/meta.json'))['checks_run'].split()[1:]))")
   out=$(tools/mutant.sh $d/patch.diff quick $props 2>&1)
   if echo "$out" | grep -q "PATCH DOES NOT APPLY"; then echo "DOES-NOT-APPLY $name"; continue; fi
-  if echo "$out" | grep -q "exit=1"; then echo "CAUGHT $name ($(echo "$out" | grep -c 'exit=1') of $(echo $props | wc -w) checks)"; else echo "MISSED $name"; fi
+  if echo "$out" | grep -qE "exit=1$"; then echo "CAUGHT $name ($(echo "$out" | grep -cE 'exit=1$') of $(echo $props | wc -w) checks)"; else echo "MISSED $name"; fi
 done
